@@ -630,8 +630,15 @@ var (
 
 func vkSharedCluster() (*vkCluster, error) {
 	vkOnce.Do(func() {
-		dir := vkMkdirTemp("bedK")
-		vkShared, vkErr = vkStartCluster(dir, 3, vkReaderTimeout)
+		// ports are picked by binding to port 0 and releasing it; another test process may take one in between,
+		// so a start that fails with "address already in use" is repeated with fresh ports
+		for try := 0; try < 4; try++ {
+			dir := vkMkdirTemp("bedK")
+			vkShared, vkErr = vkStartCluster(dir, 3, vkReaderTimeout)
+			if vkErr == nil || !strings.Contains(vkErr.Error(), "address already in use") {
+				break
+			}
+		}
 	})
 	return vkShared, vkErr
 }
